@@ -107,6 +107,9 @@ func init() {
 			if s.kind == sConc {
 				return concStr(strings.TrimSpace(s.conc))
 			}
+			if s.kind == sEnum {
+				return enumMap(s, strings.TrimSpace)
+			}
 			return in.strTrimSpace(s)
 		},
 		"strings.Trim": func(in *Interp, fn *ssa.Function, a []Value) Value {
@@ -116,6 +119,9 @@ func init() {
 			}
 			if s.kind == sConc {
 				return concStr(strings.Trim(s.conc, cut.conc))
+			}
+			if s.kind == sEnum {
+				return enumMap(s, func(x string) string { return strings.Trim(x, cut.conc) })
 			}
 			cs := cut.conc
 			return in.strTrimFunc(s, func(b *sym.Term) *sym.Term {
@@ -132,11 +138,7 @@ func init() {
 				return concStr(strings.ToUpper(s.conc))
 			}
 			if s.kind == sEnum {
-				alts := make([]string, len(s.alts))
-				for i, x := range s.alts {
-					alts[i] = strings.ToUpper(x)
-				}
-				return &Str{kind: sEnum, sel: s.sel, alts: alts, max: s.max}
+				return enumMap(s, strings.ToUpper)
 			}
 			return in.strMapBytes(s, in.upperByte)
 		},
@@ -146,11 +148,7 @@ func init() {
 				return concStr(strings.ToLower(s.conc))
 			}
 			if s.kind == sEnum {
-				alts := make([]string, len(s.alts))
-				for i, x := range s.alts {
-					alts[i] = strings.ToLower(x)
-				}
-				return &Str{kind: sEnum, sel: s.sel, alts: alts, max: s.max}
+				return enumMap(s, strings.ToLower)
 			}
 			return in.strMapBytes(s, in.lowerByte)
 		},
@@ -169,6 +167,9 @@ func init() {
 					return in.mkSlice(vs)
 				}
 				in.fail("strings.Split with non single-byte separator on symbolic input")
+			}
+			if s.kind == sEnum {
+				return in.enumSplit(s, sep.conc)
 			}
 			parts := in.strSplitByte(s, int64(sep.conc[0]))
 			vs := make([]Value, len(parts))
@@ -971,3 +972,63 @@ func (in *Interp) strItoa(t *sym.Term) *Str {
 }
 
 var _ = types.Typ
+
+// enumMap lifts a pure string function over a finite-domain string.
+func enumMap(s *Str, f func(string) string) *Str {
+	alts := make([]string, len(s.alts))
+	for i, x := range s.alts {
+		alts[i] = f(x)
+	}
+	return &Str{kind: sEnum, sel: s.sel, alts: alts, max: maxLen(alts)}
+}
+
+// enumSplit: strings.Split on a finite-domain string: fork on the number of parts, parts are finite-domain strings.
+func (in *Interp) enumSplit(s *Str, sep string) Value {
+	st := in.St
+	split := make([][]string, len(s.alts))
+	counts := map[int][]int{}
+	var order []int
+	for i, a := range s.alts {
+		split[i] = strings.Split(a, sep)
+		n := len(split[i])
+		if _, ok := counts[n]; !ok {
+			order = append(order, n)
+		}
+		counts[n] = append(counts[n], i)
+	}
+	conds := make([]*sym.Term, len(order))
+	for k, n := range order {
+		var ds []*sym.Term
+		for _, i := range counts[n] {
+			ds = append(ds, st.Eq(s.sel, st.Int(int64(i))))
+		}
+		conds[k] = st.Or(ds...)
+	}
+	d := in.choose(conds, "Split part count (enum)")
+	n := order[d]
+	vs := make([]Value, n)
+	for j := 0; j < n; j++ {
+		alts := make([]string, len(s.alts))
+		for i := range s.alts {
+			if len(split[i]) == n {
+				alts[i] = split[i][j]
+			}
+		}
+		vs[j] = normEnum(&Str{kind: sEnum, sel: s.sel, alts: alts, max: maxLen(alts)}, counts[n])
+	}
+	return in.mkSlice(vs)
+}
+
+// normEnum collapses an enum whose live alternatives (indices) all carry the same string into a concrete string.
+func normEnum(s *Str, live []int) *Str {
+	if len(live) == 0 {
+		return s
+	}
+	first := s.alts[live[0]]
+	for _, i := range live {
+		if s.alts[i] != first {
+			return s
+		}
+	}
+	return concStr(first)
+}
